@@ -9,7 +9,7 @@ from harness import core, py2lean, instantiate
 from harness.core import Outcome, f2b, b2f
 
 ID = "C18"
-LEAN_TARGETS = ["BeyondVerif.Props.C18", "BeyondVerif.Props.C18Series"]
+LEAN_TARGETS = ["BeyondVerif.Props.C18", "BeyondVerif.Props.C18Series", "BeyondVerif.Witness.C18"]
 THEOREMS = [
     "BeyondVerif.C18.spk_chain",
     "BeyondVerif.C18.spk_offset",
@@ -28,15 +28,58 @@ THEOREMS = [
     "BeyondVerif.C18.velocity_error_at_steps",
     "BeyondVerif.CentralDiff.central_difference_error",
     "BeyondVerif.CentralDiff.central_difference_exact_quadratic",
+    "BeyondVerif.C18W.two_centres_consistent",
+    "BeyondVerif.C18W.two_centres_wrong",
 ]
-LEVEL_TEXT = ""
-LEVEL_NOTE = ""
-TECHNIQUE = ""
-TRUSTED = []
-ASSUMPTIONS = []
-NOT_COVERED = []
-OPEN = []
-RULE = ""
+LEVEL_TEXT = ("Lean theorems about a model of create_frames / JplPropagator.propagate / Center.convert_to / Frame.transform (routing = the Node model of C20; "
+              "jplephem segment values are a parameter): for EVERY kernel in which no body is the target of two centres, all segment values deriving from one "
+              "position per body (proved to exist for every kernel grown segment by segment), every ordered pair of bodies and every fuel, the vector returned by "
+              "get_orbit(a).copy(frame=b) and by re-framing a zero state vector is the position/velocity of a relative to b in m, m/s, equals the signed sum of the "
+              "file's segments along a chain of kernel links, and a->b = -(b->a); for the DE403 kernel of the test data (pairs regenerated from the file each run) all "
+              "256 ordered pairs are routed (kernel decide) and return exactly that vector; independence of the PCK constants. Sun/Moon: the two series are translated "
+              "from solarsystem.py on every run; for every T the position is distance x unit vector with the distance inside the range of its series, the velocity "
+              "entries are the symmetric difference quotient of the positions, whose distance from the derivative is bounded by h^2/6 sup|f3| (general theorem, "
+              "instantiated to the two steps read from the classes). The model is tied to the code by a differential correspondence on all ordered pairs of the real "
+              "kernel with and without PCK files, on synthetic kernels installed in place of the file, and on the two propagators.")
+LEVEL_NOTE = ("proof (partial): the first sentence of the property - agreement of the analytical series with the JPL DE ephemeris to 0.02 deg / 1e-4 (Sun), 0.7 deg / 0.5 % (Moon) - "
+              "relates a formula to the contents of a binary data file; no theorem expresses it, it is exercised by the oracle only (DE403, 2000-2020 grid). "
+              "R -> double gap covered only by tolerance-bounded correspondence (1e-12 SPK, 1e-10 series). Kernels where a body is the target of two centres are "
+              "excluded by hypothesis (open finding C18-two-centres, kernel-checked counter-witness). Totality (a vector IS returned) is proved for the DE403 kernel only; "
+              "for arbitrary trees it rests on C20's open forest-routing obligation.")
+TECHNIQUE = ("Lean 4 proof: induction over the routed path (telescoping of potentials) on top of C20's path_valid_chain; decide on the regenerated kernel; "
+             "ring/linear_combination identities on series translated from the Python AST; Mathlib calculus for the difference-quotient bound; differential correspondence")
+TRUSTED = [
+    "jplephem (SPK parsing, Segment.compute_and_differentiate: km and km/day at a TDB Julian date) - segment values are a parameter of the model",
+    "lean/templates/Jpl.tpl (hand-written model of create_frames / propagate / convert_to / transform), tied by the correspondence run; Model/Node.lean (C20)",
+    "harness/py2lean.py: translates SunPropagator._propagate / MoonPropagator._propagate (incl. the local degree-cos/sin) into Generated/SunMoon{F,R}.lean on every run",
+    "beyond.dates (UTC -> TDB / UT1, julian_century): the three time arguments of the difference quotient are taken from the real Date objects (C03/C04)",
+    "numpy / libm double arithmetic vs R: tolerance 1e-12 (SPK chaining, same operations in the same order) and 1e-10 (series)",
+    "harness/props/C18.py chain_direct: the independent 'chain the segments directly' reference used by the oracle (breadth-first walk over the pairs, jplephem values)",
+]
+ASSUMPTIONS = [
+    "bodies are identified by NAIF code; distinct codes of the kernel have distinct title-cased names (checked by extract for the real kernel)",
+    "all frames involved share the EME2000 orientation, so orientation.convert_to is the identity matrix (checked by correspondence incl. the built-in EME2000 frame)",
+    "the built-in Earth centre hangs below the kernel's Earth through a zero offset (the create_frames epilogue); modelled by identifying the two",
+    "segments are of the position-only type (len(pos) == 3: velocity in km/day divided by 86400); the len(pos) == 6 branch of propagate is not modelled (no such segment in DE kernels)",
+    "create_frames is called once per process (the harness runs each configuration in its own process)",
+    "velocity_error_at_steps takes the position coordinate as a function of uniform time; the scale's Julian century is not exactly uniform in UTC (UT1, TDB periodic terms: < 1e-8 relative)",
+]
+NOT_COVERED = [
+    "agreement of the analytical Sun and Moon series with the JPL DE ephemeris (0.02 deg, 1e-4; 0.7 deg, 0.5 %): formula vs binary data file - oracle only (DE403 2000-2020)",
+    "a bound on the third derivative of the two series (needed to turn velocity_error_at_steps into a number): oracle only (numerical third differences)",
+    "dates outside the span of the kernel (jplephem raises) and kernels with several time-sliced segments for one (center, target) pair",
+]
+OPEN = [
+    "totality for arbitrary tree kernels (a path is always found): proved by decide for the DE403 kernel, otherwise inherited from C20's open forest_routes_exact",
+    "existence of consistent positions is proved for kernels grown segment by segment (each new segment hangs a new body); not for trees given in an arbitrary order of segments",
+    "smoothness and explicit third-derivative bounds of sunSeries / moonSeries are not formalised",
+]
+RULE = ("correspondence: every ordered pair of the 16 bodies of de403_2000-2020.bsp (+ the built-in EME2000 frame) x dates across the span (both ends included) x "
+        "{get_orbit(a).copy(frame=b), zero state vector re-framed} x {with, without PCK files} and random synthetic tree kernels (2-8 bodies, rooted and arbitrarily "
+        "oriented, random order) installed in place of the file, real code vs the compiled Lean model fed with the same jplephem segment values (rtol 1e-12, same error kinds); "
+        "Sun/Moon propagate vs the translated series + difference quotient at 1950-2050 dates (rtol 1e-10); non-trivial = a != b; distinct = distinct (kernel, op, a, b, date). "
+        "oracle: the same calls against chaining the segments directly with jplephem (1e-12 of the summed magnitudes), antisymmetry, TDB argument, bit-identity with/without PCK, "
+        "synthetic kernels; Sun/Moon vs DE403 at the property's accuracies, velocity vs derivative of the position within the theorem's bound")
 
 JPL_DIR = os.path.join(core.REPO, "tests", "data", "jpl")
 BSP = os.path.join(JPL_DIR, "de403_2000-2020.bsp")
@@ -466,6 +509,42 @@ def oracle_spk(out, rng, ndates):
                 "example": res[True]["rows"][5][:6]})
 
 
+TWO_CENTRES_KERNEL = [[5, 601, [1.0e6, -2.0e6, 3.0e5], [1.0e3, 2.0e3, -5.0e2]],
+                      [399, 601, [-7.0e5, 4.0e5, 9.0e5], [-3.0e3, 1.0e3, 2.5e3]]]
+
+
+def oracle_synthetic(out, rng, n):
+    """synthetic kernels installed in place of the file (worker processes): random trees of segments.
+    Rooted trees (each body the target of one segment, like every JPL planetary/satellite kernel) must chain exactly;
+    trees in which a body is the target of segments from two centres exhibit the open finding C18-two-centres."""
+    kernels = [("fixed-two-centres", TWO_CENTRES_KERNEL)]
+    for i in range(n):
+        kernels.append((f"random-{i}", gen_kernel(rng, rooted=i % 2 == 0)))
+    for label, fake in kernels:
+        fd = gen_dates(rng, 3)[2:]
+        r = collect(False, fd, True, fake)
+        pairs = [tuple(p) for p in r["pairs"]]
+        tg = [t for _, t in pairs]
+        two = len(set(tg)) < len(tg)
+        for kind, a, b, k, st, vec, jd in r["rows"]:
+            raw = {tuple(int(x) for x in key.split("-")): v for key, v in r["raw"][str(k)]["seg"].items()}
+            inp = {"kernel_pairs": pairs, "segments_km_kmday": {f"{c}-{t}": raw[(c, t)] for c, t in pairs}, "op": kind, "a": a, "b": b}
+            fam = "spk-synthetic-two-centres" if two else f"spk-synthetic-{kind}"
+            out.count(key=(label, kind, a, b), nontrivial=a != b, kind="synthetic-" + kind, two_centres=two)
+            if kind.startswith("orbit") and a not in tg:
+                if st != "unknown-body":
+                    out.fail(fam + "-no-propagator", "a body that is the target of no segment has an orbit", inp, observed=st, expected="unknown-body")
+                continue
+            if st != "ok":
+                out.fail(fam, f"conversion between two bodies of a synthetic kernel raised {st}", inp, observed=st, expected="ok")
+                continue
+            exp, _ = chain_direct(pairs, raw, a, b)
+            tot = [sum(abs(raw[p][i]) * (1000.0 if i < 3 else 1000.0 / 86400.0) for p in pairs) for i in range(6)]
+            if any(abs(vec[i] - exp[i]) > 1e-11 * tot[i] for i in range(6)):
+                out.fail(fam, f"{kind}: body {a} relative to body {b} differs from the chained segments" + (" (a body of this kernel is the target of segments from two centres)" if two else ""),
+                         inp, observed=vec, expected=exp)
+
+
 def sun_moon_reference(e, jd):
     raw = raw_segments(e, jd)
     sun, _ = chain_direct(e["pairs"], raw, 10, 399)
@@ -537,7 +616,8 @@ def oracle(ctx, widened):
     out = Outcome()
     big = widened or ctx.thorough
     oracle_spk(out, ctx.rng, 24 if big else 4)
-    oracle_series(out, ctx.rng, 4000 if big else 300)
+    oracle_synthetic(out, ctx.rng, 40 if big else 5)
+    oracle_series(out, ctx.rng, 12000 if big else 300)
     return out
 
 
